@@ -643,6 +643,31 @@ impl<T: Config> P2PSession<T> {
             .collect()
     }
 
+    /// Verification hook: everything the desync detection reads and keeps.
+    #[cfg(feature = "verif-hooks")]
+    pub fn verif_desync(&self) -> crate::verif::DesyncView {
+        let mut history: Vec<_> = self.local_checksum_history.iter().map(|(f, c)| (*f, *c)).collect();
+        history.sort_unstable();
+        let mut pending: Vec<_> = self
+            .player_reg
+            .remotes
+            .iter()
+            .map(|(a, e)| {
+                let mut v: Vec<_> = e.pending_checksums.iter().map(|(f, c)| (*f, *c)).collect();
+                v.sort_unstable();
+                (format!("{a:?}"), v)
+            })
+            .collect();
+        pending.sort_by(|a, b| a.0.cmp(&b.0));
+        crate::verif::DesyncView {
+            last_confirmed: self.sync_layer.last_confirmed_frame(),
+            last_sent: self.last_sent_checksum_frame,
+            history,
+            pending,
+            cells: self.sync_layer.verif_cells(),
+        }
+    }
+
     /// Verification hook: sizes of all internal buffers.
     #[cfg(feature = "verif-hooks")]
     pub fn verif_sizes(&self) -> crate::verif::P2PSizes {
